@@ -81,8 +81,7 @@ Definition sel_matches_model (m : msel) (o : obs_sel) : bool :=
 
 Definition res_of_obs (o : obs_sel) : sel_res :=
   match o with OSok d l _ => ROk d l | OSerr e l => RErr e l end.
-Definition res_of_model (m : msel) : list sel_res :=
-  match m with MOk ds l _ => map (fun d => ROk d l) ds | MErr e l => [RErr e l] end.
+Definition res_of_model := results_of.
 
 (* error codes:  1 impl<>model (set dump)   5 impl<>model (callbacks)   4 impl<>model (selection)
                  2 impl<>spec (set state: alive view / standing choice / switch reason)
